@@ -51,8 +51,8 @@ MATCHERS = {
   "c17_unparsable_text_raises": _unparsable_text_raises,
 }
 
-TEXTS_PER_DOC = {"quick": 4, "thorough": 6}
-N_RANDOM = {"quick": 240, "thorough": 4000}       # generated documents (1-4 texts each, 9 contexts per text)
+TEXTS_PER_DOC = {"quick": 5, "thorough": 6}
+N_RANDOM = {"quick": 160, "thorough": 4000}       # generated documents (1-4 texts each, 9 contexts per text)
 
 
 def _items(ctx):
@@ -68,12 +68,10 @@ def _items(ctx):
     # the "bulk" path is one BulkUpdateRecord of colId: only different from "colId" for several columns
     groups.setdefault((v, g, p), []).append({"expr": expr, "style": style})
 
-  # wide family: every tree x every rename x two (spelling, path) pairs taken in turn (quick: every spelling)
+  # wide family: every tree x every rename x two (spelling, path) pairs taken in turn
   for k, e in enumerate(space["wide"]):
     for g in range(len(targets)):
-      combos = ([(s, (k + g + s) % len(paths)) for s in range(len(styles))] if ctx.quick else
-                [((k + g) % len(styles), (k + 2 * g) % len(paths)), ((k + g + 2) % len(styles), (k + 2 * g + 1) % len(paths))])
-      for s, p in combos:
+      for s, p in (((k + g) % len(styles), (k + 2 * g) % len(paths)), ((k + g + 2) % len(styles), (k + 2 * g + 1) % len(paths))):
         put(e, styles[s], k % len(variants), g, paths[p])
         n += 1
   # narrow family: every tree x two renames taken in turn x one (spelling, path)
